@@ -46,6 +46,10 @@ theorem heap_eq_of_data {h : Heap} {d : List (Nat × List Val × List String)}
     (e : ({ h with data := d } : Heap) = h) : d = h.data := by
   cases h; simp at e; exact e
 
+theorem heap_mk_eq {c : List (Fn × List Val)} {d : List (Nat × List Val × List String)} {h : Heap} :
+    (({ clos := c, data := d } : Heap) = h) ↔ (c = h.clos ∧ d = h.data) := by
+  cases h; simp
+
 /-- a turn of the interpreter loop that leaves the heap `h` alone does the same over any
     extension of `h` -/
 theorem stepInstr_hext {fn : Fn} {upv : List Val} {i : Instr} {pc : Nat} {stk : List Val}
@@ -55,6 +59,80 @@ theorem stepInstr_hext {fn : Fn} {upv : List Val} {i : Instr} {pc : Nat} {stk : 
   have hd := hx.1
   cases i
   all_goals (simp only [stepInstr, hx.asData] at hs ⊢)
-  all_goals sorry
+  all_goals (try (repeat' split at hs) <;> simp_all <;> done)
+  case newVariant tag args =>
+    by_cases h0 : args = 0
+    · simp only [h0, if_true] at hs ⊢
+      simp only [LocalOut.next.injEq] at hs ⊢
+      exact ⟨hs.1, hs.2.1, trivial⟩
+    · simp only [h0, if_false, LocalOut.next.injEq, heap_mk_eq] at hs
+      have := congrArg List.length hs.2.2.2
+      simp at this
+  case newRecord record args =>
+    by_cases h0 : args = 0
+    · simp only [h0, if_true] at hs ⊢
+      simp only [LocalOut.next.injEq] at hs ⊢
+      exact ⟨hs.1, hs.2.1, trivial⟩
+    · simp only [h0, if_false] at hs
+      split at hs
+      · simp only [LocalOut.next.injEq, heap_mk_eq] at hs
+        have := congrArg List.length hs.2.2.2
+        simp at this
+      · simp at hs
+  case closeData index =>
+    rw [hd]
+    split at hs
+    · rename_i id heq
+      simp only [heq]
+      split at hs
+      · rename_i t fs ns hdat
+        simp only [hdat]
+        split at hs
+        · simp at hs
+        · rename_i hlt
+          simp only [hlt, if_false]
+          simp only [LocalOut.next.injEq, heap_mk_eq] at hs ⊢
+          exact ⟨hs.1, hs.2.1, rfl, by rw [hs.2.2.2, hd]⟩
+      · simp at hs
+    · simp at hs
+  case makeClosure fi n =>
+    split at hs
+    · split at hs
+      · simp at hs
+      · simp only [LocalOut.next.injEq, heap_mk_eq] at hs
+        have := congrArg List.length hs.2.2.1
+        simp at this
+    · simp at hs
+  case newClosure fi n =>
+    split at hs
+    · simp only [LocalOut.next.injEq, heap_mk_eq] at hs
+      have := congrArg List.length hs.2.2.1
+      simp at this
+    · simp at hs
+  case closeClosure n =>
+    split at hs
+    · simp at hs
+    · rename_i hlt
+      simp only [hlt, if_false]
+      split at hs
+      · rename_i id heq
+        simp only [heq]
+        split at hs
+        · rename_i f ups hcl
+          simp only [hx.clos hcl]
+          split at hs
+          · simp at hs
+          · rename_i hlt2
+            simp only [hlt2, if_false]
+            simp only [LocalOut.next.injEq, heap_mk_eq] at hs ⊢
+            refine ⟨hs.1, hs.2.1, ?_, rfl⟩
+            obtain ⟨t, ht⟩ := hx.2
+            have hid : id < h.clos.length := by
+              rcases Nat.lt_or_ge id h.clos.length with h' | h'
+              · exact h'
+              · rw [List.getElem?_eq_none h'] at hcl; cases hcl
+            rw [← ht, setAt_append_left _ _ _ _ hid, hs.2.2.1]
+        · simp at hs
+      · simp at hs
 
 end GluonModel.Proofs.Compile
